@@ -151,7 +151,8 @@ func C05cache(p *load.Program, run *report.Run) {
 		}
 		return false
 	}
-	if len(keys) != 1 || !keys["instr.StringTyped()"] {
+	// Instr.String() is the typed string plus the operands' names: a finer key, which covers the same fields
+	if len(keys) != 1 || !(keys["instr.StringTyped()"] || keys["instr.String()"]) {
 		// a key variable: find the call that builds it from the instruction
 		var keyPaths []string
 		resolved := false
